@@ -24,6 +24,7 @@ import struct
 from typing import Any
 
 import dns.enum
+import dns.exception
 import dns.inet
 import dns.ipv4
 import dns.ipv6
@@ -71,6 +72,14 @@ class OptionType(dns.enum.IntEnum):
     @classmethod
     def _maximum(cls):
         return 65535
+
+
+def _decode_utf8(data: bytes) -> str:
+    """Decode option text received from the wire; malformed UTF-8 is a format error."""
+    try:
+        return data.decode("utf8")
+    except UnicodeDecodeError:
+        raise dns.exception.FormError("EDNS option text is not valid UTF-8")
 
 
 class Option:
@@ -435,7 +444,7 @@ class EDEOption(Option):  # lgtm[py/missing-equals]
             # text MAY be null-terminated; every trailing NUL is dropped, so that the
             # option's own wire form decodes to an equal option
             text = text.rstrip(b"\x00")
-            btext = text.decode("utf8")
+            btext = _decode_utf8(text)
         else:
             btext = None
 
@@ -549,7 +558,7 @@ class EDEExtraTextLanguageOption(Option):
     def from_wire_parser(
         cls, otype: OptionType | str, parser: dns.wire.Parser
     ) -> Option:
-        return cls(parser.get_remaining().decode("utf8"))
+        return cls(_decode_utf8(parser.get_remaining()))
 
 
 class FilteringContactOption(Option):
@@ -579,7 +588,7 @@ class FilteringContactOption(Option):
     def from_wire_parser(
         cls, otype: OptionType | str, parser: dns.wire.Parser
     ) -> Option:
-        return cls(parser.get_remaining().decode("utf8"))
+        return cls(_decode_utf8(parser.get_remaining()))
 
 
 class FilteringOrganizationOption(Option):
@@ -609,7 +618,7 @@ class FilteringOrganizationOption(Option):
     def from_wire_parser(
         cls, otype: OptionType | str, parser: dns.wire.Parser
     ) -> Option:
-        return cls(parser.get_remaining().decode("utf8"))
+        return cls(_decode_utf8(parser.get_remaining()))
 
 
 class FilteringDBOption(Option):
@@ -643,7 +652,7 @@ class FilteringDBOption(Option):
     def from_wire_parser(
         cls, otype: OptionType | str, parser: dns.wire.Parser
     ) -> Option:
-        return cls(parser.get_remaining().decode("utf8"))
+        return cls(_decode_utf8(parser.get_remaining()))
 
 
 _type_to_class: dict[OptionType, Any] = {
